@@ -85,10 +85,6 @@ def dataRaw (d : Dec) : Except Fault (Option Bytes × Dec) := do
   let (l, d1) ← int16 d
   copyRaw d1 l
 
-def isPanic {α : Type} : Except Fault α → Bool
-  | .error .panic => true
-  | _ => false
-
 /-! ## operations as data, for op sequences -/
 
 inductive Op where
